@@ -55,7 +55,7 @@ def _compile(text, olds):
 
 
 BASE_ENV = {
-    "val": lambda x: x, "is_none": lambda x: x is None, "Some": lambda x: x, "final": lambda x: x, "class_of": lambda x: type(x),
+    "val": lambda x: x, "is_none": lambda x: x is None, "Some": lambda x: x, "final": lambda x: x, "class_of": lambda x: type(x), "cast": lambda x, c: x,
     "iff": lambda a, b: bool(a) == bool(b), "ite": lambda c, a, b: a if c else b,
     "select": lambda m, k: (k in m) if isinstance(m, (set, frozenset)) else m.get(k),
     "len": len, "min": min, "max": max, "isinstance": isinstance, "all": all, "any": any,
